@@ -15,7 +15,7 @@ use serde::{Deserialize, Serialize};
 use std::collections::{BTreeMap, BTreeSet};
 use vcore::amounts::{arb_below, arb_bool, arb_u128, edge_u128, mostly_small_u128};
 use vcore::direct::Direct;
-use vcore::exp::{arb_exp, arb_opt_exp, exp_spec, is_expired, opt_exp_spec, ExpSpec};
+use vcore::exp::{arb_exp, arb_opt_exp, exp_spec, is_expired_ns as is_expired, opt_exp_spec, ExpSpec};
 use vcore::{CaseCtx, Family, PropSpec, Tier, Violation};
 
 pub const N_ACTORS: u8 = 5;
@@ -82,7 +82,7 @@ pub enum Op {
     SendFrom { pair: Pair, to: u8, amt: Amt, payload: Vec<u8> },
     BurnFrom { pair: Pair, amt: Amt },
     UpdateMinter { by: Who, new: Option<u8> },
-    Advance { blocks: u8, secs: u16 },
+    Advance { blocks: u8, secs: u16, #[serde(default)] nanos: u32 },
     /// calls that have nothing to do with balances, allowances or the minter role and must leave all of
     /// them alone: what % 5 = 0 UpdateMarketing (texts), 1 UpdateMarketing (hand the marketing role to
     /// actor `arg`), 2 UploadLogo (url), 3 UploadLogo (embedded svg), 4 a code upgrade: the stored cw2
@@ -98,6 +98,10 @@ pub struct Init {
     /// actor that holds the marketing role (None: no marketing info at instantiation)
     #[serde(default)]
     pub marketing: Option<u8>,
+    /// further initial accounts outside the actor pool (they never act): tokens with more holders than any
+    /// page or batch size
+    #[serde(default)]
+    pub crowd: u8,
 }
 
 #[derive(Clone, Debug, Serialize, Deserialize, PartialEq)]
@@ -152,7 +156,8 @@ fn amt() -> BoxedStrategy<Amt> {
 }
 
 fn who() -> impl Strategy<Value = Who> {
-    prop_oneof![3 => Just(Who::Minter), 2 => actor().prop_map(Who::Actor)]
+    // (index N_ACTORS: the token contract's own address as the sender)
+    prop_oneof![9 => Just(Who::Minter), 6 => actor().prop_map(Who::Actor), 1 => Just(Who::Actor(N_ACTORS))]
 }
 
 fn pair() -> impl Strategy<Value = Pair> {
@@ -204,14 +209,14 @@ fn op_group(w: Weights) -> BoxedStrategy<Vec<Op>> {
         (w.sfrom, one((pair(), rcpt(), amt(), payload()).prop_map(|(pair, to, amt, payload)| Op::SendFrom { pair, to, amt, payload }).boxed())),
         (w.bfrom, one((pair(), amt()).prop_map(|(pair, amt)| Op::BurnFrom { pair, amt }).boxed())),
         (w.upd_minter, one((who(), proptest::option::weighted(0.75, rcpt())).prop_map(|(by, new)| Op::UpdateMinter { by, new }).boxed())),
-        (w.advance, one((0u8..4, 0u16..40).prop_map(|(blocks, secs)| Op::Advance { blocks, secs }).boxed())),
+        (w.advance, one((0u8..4, 0u16..40, prop_oneof![2 => Just(0u32), 1 => 1u32..1_000_000_000]).prop_map(|(blocks, secs, nanos)| Op::Advance { blocks, secs, nanos }).boxed())),
         (w.side, one((actor(), 0u8..5, actor()).prop_map(|(by, what, arg)| Op::Side { by, what, arg }).boxed())),
         (w.race, (actor(), actor(), actor(), 1u128..200, 0u128..250, 0u128..250, exp_spec(), any::<bool>(), 0u8..3)
             .prop_map(|(owner, spender, to, grant, dec, draw, exp, dec_first, adv)| {
                 let g = Op::Increase { owner, spender, amt: Amt::Abs(grant), exp: Some(exp) };
                 let d = Op::Decrease { pair: Pair::Explicit(owner, spender), amt: Amt::Abs(dec), exp: None };
                 let t = Op::TransferFrom { pair: Pair::Explicit(owner, spender), to, amt: Amt::Abs(draw) };
-                let a = Op::Advance { blocks: adv, secs: adv as u16 * 5 };
+                let a = Op::Advance { blocks: adv, secs: adv as u16 * 5, nanos: 0 };
                 if dec_first { vec![g, a, d, t] } else { vec![g, a, t, d] }
             })
             .boxed()),
@@ -237,8 +242,9 @@ fn init_strategy(prop: &str) -> BoxedStrategy<Init> {
         1 => edge_u128().prop_map(|k| Some(Cap::Abs(k))),
     ];
     let p_mint = if prop == "C13" { 0.92 } else { 0.7 };
-    (accounts, proptest::option::weighted(p_mint, (rcpt(), cap)), proptest::option::weighted(0.6, actor()))
-        .prop_map(|(accounts, mint, marketing)| Init { accounts, mint, marketing })
+    let crowd = if prop == "C01" { prop_oneof![9 => Just(0u8), 1 => 31u8..48].boxed() } else { Just(0u8).boxed() };
+    (accounts, proptest::option::weighted(p_mint, (rcpt(), cap)), proptest::option::weighted(0.6, actor()), crowd)
+        .prop_map(|(accounts, mint, marketing, crowd)| Init { accounts, mint, marketing, crowd })
         .boxed()
 }
 
@@ -494,7 +500,7 @@ fn resolve_pair(p: &Pair, o: &Obs) -> (usize, usize) {
 
 fn resolve_who(wh: &Who, o: &Obs, w: &World) -> usize {
     match wh {
-        Who::Actor(i) => *i as usize % N_ACTORS as usize,
+        Who::Actor(i) => *i as usize % N_HOLDERS as usize,
         Who::Minter => o.minter.as_ref().and_then(|m| w.actors.iter().position(|a| a.as_str() == m.0)).unwrap_or(0),
     }
 }
@@ -565,6 +571,7 @@ pub fn run_case(prop: &str, case: &Case, ctx: &mut CaseCtx) -> Result<(), Violat
         // fabricated pre-0.14 image: balances = distinct valid part of init.accounts
         let mut total = 0u128;
         let mut seen = BTreeSet::new();
+        let (start_h, start_ns) = (w.d.height, w.d.now_ns());
         let store = &mut w.d.store;
         for (i, a) in &case.init.accounts {
             let i = *i as usize % N_ACTORS as usize;
@@ -594,7 +601,7 @@ pub fn run_case(prop: &str, case: &Case, ctx: &mut CaseCtx) -> Result<(), Violat
             if o == s {
                 continue;
             }
-            let e = la.exp.resolve(w.d.height, w.d.time);
+            let e = la.exp.resolve_ns(start_h, start_ns);
             L_ALLOWANCES.save(store, (&w.actors[o], &w.actors[s]), &LegacyAllowanceValue { allowance: Uint128::new(la.amount), expires: e }).unwrap();
             last.insert((o, s), la.amount);
         }
@@ -626,7 +633,13 @@ pub fn run_case(prop: &str, case: &Case, ctx: &mut CaseCtx) -> Result<(), Violat
             name: "Verif Token".into(),
             symbol: "VRF".into(),
             decimals: 6,
-            initial_balances: case.init.accounts.iter().map(|(i, a)| Cw20Coin { address: w.rcpts[*i as usize % N_RCPT as usize].clone(), amount: Uint128::new(*a) }).collect(),
+            initial_balances: case
+                .init
+                .accounts
+                .iter()
+                .map(|(i, a)| Cw20Coin { address: w.rcpts[*i as usize % N_RCPT as usize].clone(), amount: Uint128::new(*a) })
+                .chain((0..case.init.crowd).map(|k| Cw20Coin { address: w.d.api.addr_make(&format!("crowd{k}")).to_string(), amount: Uint128::new(1 + k as u128) }))
+                .collect(),
             mint: minter_str.clone().map(|m| MinterResponse { minter: m, cap: cap_value.map(Uint128::new) }),
             marketing: case.init.marketing.map(|m| cw20_base::msg::InstantiateMarketingInfo { project: Some("verif".into()), description: None, marketing: Some(w.actors[m as usize % N_ACTORS as usize].to_string()), logo: None }),
         };
@@ -677,8 +690,9 @@ pub fn run_case(prop: &str, case: &Case, ctx: &mut CaseCtx) -> Result<(), Violat
             (w.rcpts[i].clone(), if i < N_HOLDERS as usize { Some(i) } else { None })
         };
         let step: Step = match op {
-            Op::Advance { blocks, secs } => {
+            Op::Advance { blocks, secs, nanos } => {
                 w.d.advance(*blocks as u64, *secs as u64);
+                w.d.advance_nanos(*nanos);
                 // time passing alone changes nothing observable
                 let post = w.observe().map_err(qerr)?;
                 if post != pre {
@@ -706,11 +720,11 @@ pub fn run_case(prop: &str, case: &Case, ctx: &mut CaseCtx) -> Result<(), Violat
                 let o = *owner as usize % n;
                 let t = rc(*spender);
                 let pr = t.1.map(|sp| (o, sp));
-                Step { kind: Kind::Increase, sender: o, owner: None, target: Some(t), amount: resolve(amt, &pre, inst_cap, Some(o), pr), exp: exp.map(|e| e.resolve(w.d.height, w.d.time)), payload: vec![] }
+                Step { kind: Kind::Increase, sender: o, owner: None, target: Some(t), amount: resolve(amt, &pre, inst_cap, Some(o), pr), exp: exp.map(|e| e.resolve_ns(w.d.height, w.d.now_ns())), payload: vec![] }
             }
             Op::Decrease { pair, amt, exp } => {
                 let (o, sp) = resolve_pair(pair, &pre);
-                Step { kind: Kind::Decrease, sender: o, owner: None, target: Some((w.rcpts[sp].clone(), Some(sp))), amount: resolve(amt, &pre, inst_cap, Some(o), Some((o, sp))), exp: exp.map(|e| e.resolve(w.d.height, w.d.time)), payload: vec![] }
+                Step { kind: Kind::Decrease, sender: o, owner: None, target: Some((w.rcpts[sp].clone(), Some(sp))), amount: resolve(amt, &pre, inst_cap, Some(o), Some((o, sp))), exp: exp.map(|e| e.resolve_ns(w.d.height, w.d.now_ns())), payload: vec![] }
             }
             Op::TransferFrom { pair, to, amt } => {
                 let (o, sp) = resolve_pair(pair, &pre);
@@ -1035,7 +1049,8 @@ fn check_c02_step(
 ) -> Result<(), Violation> {
     let prop = "C02";
     let n = w.actors.len();
-    let (h, t) = (w.d.height, w.d.time);
+    // (block time in nanoseconds: it is not a whole number of seconds)
+    let (h, t) = (w.d.height, w.d.now_ns());
     let is_draw = matches!(s.kind, Kind::TransferFrom | Kind::SendFrom | Kind::BurnFrom);
 
     // (a) a balance decreases only for the legitimate debited account of a successful op
@@ -1380,7 +1395,7 @@ fn d_who(u: &mut arbitrary::Unstructured) -> Who {
     if arb_bool(u, 3, 5) {
         Who::Minter
     } else {
-        Who::Actor(d_actor(u))
+        Who::Actor(if arb_bool(u, 1, 9) { N_ACTORS } else { d_actor(u) })
     }
 }
 fn d_payload(u: &mut arbitrary::Unstructured) -> Vec<u8> {
@@ -1441,11 +1456,12 @@ pub fn decode_case(prop: &str, u: &mut arbitrary::Unstructured) -> Case {
             10 => Op::SendFrom { pair: d_pair(u), to: d_rcpt(u), amt: d_amt(u), payload: d_payload(u) },
             11 => Op::BurnFrom { pair: d_pair(u), amt: d_amt(u) },
             12 => Op::UpdateMinter { by: d_who(u), new: if arb_bool(u, 3, 4) { Some(d_rcpt(u)) } else { None } },
-            _ => if arb_bool(u, 1, 3) { Op::Side { by: d_actor(u), what: arb_below(u, 5) as u8, arg: d_actor(u) } } else { Op::Advance { blocks: arb_below(u, 4) as u8, secs: arb_below(u, 40) as u16 } },
+            _ => if arb_bool(u, 1, 3) { Op::Side { by: d_actor(u), what: arb_below(u, 5) as u8, arg: d_actor(u) } } else { Op::Advance { blocks: arb_below(u, 4) as u8, secs: arb_below(u, 40) as u16, nanos: if arb_bool(u, 1, 3) { 1 + u.int_in_range(0u32..=999_999_998).unwrap_or(0) } else { 0 } } },
         };
         ops.push(op);
     }
     let marketing = if arb_bool(u, 3, 5) { Some(d_actor(u)) } else { None };
     let legacy_bulk = if prop == "C19" && arb_bool(u, 1, 5) { 16 + arb_below(u, 8) as u8 } else { 0 };
-    Case { init: Init { accounts, mint, marketing }, legacy, legacy_version, legacy_bulk, ops }
+    let crowd = if prop == "C01" && arb_bool(u, 1, 10) { 31 + arb_below(u, 17) as u8 } else { 0 };
+    Case { init: Init { accounts, mint, marketing, crowd }, legacy, legacy_version, legacy_bulk, ops }
 }
